@@ -398,7 +398,7 @@ func (e *Engine) addReachObl(st *State, cl Clause, fn string) {
 		e.reachCount = map[string]int{}
 	}
 	e.reachCount[id]++
-	if e.reachCount[id] > 3 {
+	if e.reachCount[id] > 60 {
 		return // a few witnesses are enough for the vacuity guard
 	}
 	e.sideObls = append(e.sideObls, sideObl{id: id, kind: "mustfail", clause: "false (vacuity guard: loop body reachable)",
